@@ -46,7 +46,7 @@ func runC09(c *Ctx) {
 		issuing = append(issuing, p.callers(f)...)
 	}
 	sort.Slice(issuing, func(i, j int) bool { return issuing[i].Pos() < issuing[j].Pos() })
-	c.Floor("C09-R1", "issuing call sites", len(issuing), 4)
+	c.Floor("C09-R1", "issuing call sites", len(issuing), 2)
 
 	// transaction sites: every write-transaction runner call in the program whose closure may reach an issuer
 	type txSite struct {
@@ -89,7 +89,7 @@ func runC09(c *Ctx) {
 	}
 	sort.Slice(txSites, func(i, j int) bool { return txSites[i].call.Pos() < txSites[j].call.Pos() })
 	c.Note("C09-R1: %d write-transaction runner calls examined, %d can reach an address issuer", nRunners, len(txSites))
-	c.Floor("C09-R1", "address-issuing transaction sites", len(txSites), 6)
+	c.Floor("C09-R1", "address-issuing transaction sites", len(txSites), 3)
 
 	// manual transactions (BeginReadWriteTx) that reach an issuer are not modelled: flag them
 	for _, fn := range p.RepoFuncs {
